@@ -293,6 +293,7 @@ func encDigest(args []string) int {
 	}
 	defer f.Close()
 	progs := map[uint][]encProg{}
+	own := map[string][]encProg{}
 	var names []string
 	sc := bufio.NewScanner(f)
 	sc.Buffer(make([]byte, 1<<20), 1<<20)
@@ -307,6 +308,9 @@ func encDigest(args []string) int {
 			progs[uint(b)] = parseProgs(fl[2:])
 		case "M":
 			names = append(names, fl[1])
+		case "X": // method with its own progressions
+			names = append(names, fl[1])
+			own[fl[1]] = parseProgs(fl[2:])
 		}
 	}
 	type job struct {
@@ -320,6 +324,7 @@ func encDigest(args []string) int {
 	results := make([]res, len(names))
 	var jobs []job
 	ms := make([]*encMethod, len(names))
+	mprogs := make([][]encProg, len(names))
 	for i, n := range names {
 		m := encFind(n)
 		ms[i] = m
@@ -328,10 +333,14 @@ func encDigest(args []string) int {
 			continue
 		}
 		ps, ok := progs[m.bits]
+		if o, has := own[n]; has {
+			ps, ok = o, true
+		}
 		if !ok {
 			results[i].err = fmt.Sprintf("no progressions for %d operand bits", m.bits)
 			continue
 		}
+		mprogs[i] = ps
 		results[i].bits = m.bits
 		results[i].rows = make([][]uint64, len(encStates))
 		for si := range encStates {
@@ -349,7 +358,7 @@ func encDigest(args []string) int {
 			defer wg.Done()
 			for j := range ch {
 				m := ms[j.mi]
-				p := progs[m.bits][j.pi]
+				p := mprogs[j.mi][j.pi]
 				c := newEncCaller(m, false)
 				var o encObs
 				av := make([]int64, len(m.pars))
